@@ -153,7 +153,8 @@ def make_label(style):
     if style == "int":
         return lambda k: int(k)
     if style == "str":
-        return lambda k: "arm%d" % k
+        # labels of different lengths: numpy stores them in a fixed-width unicode dtype sized by the longest one it has seen
+        return lambda k: "arm" + "x" * (int(k) % 3) + "%d" % k
     if style == "float":
         return lambda k: float(k) + 0.5
     if style == "negint":
@@ -300,6 +301,9 @@ def apply_op(mab, o, label, inv, case):
             if case.get("np_inputs", True):
                 ds = np.asarray(ds); rs = np.asarray(rs, dtype=float)
                 cx = None if cx is None else np.asarray(cx, dtype=float)
+                # integer-typed training contexts (count features): same values, another dtype of the stored history
+                if cx is not None and case.get("int_ctx") and cx.size and np.all(cx == np.round(cx)):
+                    cx = cx.astype(np.int64)
             (mab.fit if k == "fit" else mab.partial_fit)(ds, rs, cx)
             return ("done",)
         if k == "add":
